@@ -990,15 +990,22 @@ def c06_league_model(res, rng):
         if ok:
             lines.append("LEAGUE " + " ".join(toks))
             finals.append((beta, init, [(p.mu, p.sigma) for p in pool], 2e-5 if noisy else 2e-7))
-    outs = Driver().run(lines)
-    for (beta, init, fin, tol), o in zip(finals, outs):
+    drv = Driver()
+    outs = drv.run(lines)
+    # the same leagues on 192-bit floats: the distance between the model's own double run and its exact run is the rounding
+    # noise of this very history (a fed-back sequence amplifies it, Thurstone-Mosteller ties most of all)
+    import symtrace
+    outsx = drv.run([l.replace("LEAGUE ", "LEAGUEX ", 1) for l in lines])
+    for (beta, init, fin, tol), o, ox in zip(finals, outs, outsx):
         want = [tuple(core.h2f(x) for x in tok.split(":")) for tok in o.split(" ")[1:]]
+        exact_ = [tuple(float(symtrace.parse_bf(x)) for x in tok.split(":")) for tok in ox.split(" ")[1:] if tok]
         res.traces += 1
         res.count("league_machine_comparisons")
-        for pid, (a, b) in enumerate(zip(fin, want)):
-            # doubles against doubles over a fed-back history; the same composition is compared without rounding by exact.exact_leagues
-            if not (close(a[0], b[0], tol, beta) and close(a[1], b[1], tol, init[pid][1])):
-                res.fail("correspondence", "C06: after a league of fed-back games player %d holds %r on the implementation, %r on the Lean league machine" % (pid, a, b), None)
+        for pid, (a, b, e) in enumerate(zip(fin, want, exact_)):
+            okm = abs(a[0] - e[0]) <= tol * max(abs(e[0]), beta) + 30 * abs(b[0] - e[0])
+            oks = abs(a[1] - e[1]) <= tol * max(abs(e[1]), init[pid][1]) + 30 * abs(b[1] - e[1])
+            if not (okm and oks):
+                res.fail("correspondence", "C06: after a league of fed-back games player %d holds %r on the implementation, %r on the Lean league machine (doubles), %r on 192-bit floats" % (pid, a, b, e), None)
                 break
 
 
@@ -1071,6 +1078,11 @@ def c07_game(res, g, games):
         resid += dsum / s2[i]
         gross += abs(dsum) / s2[i]
         cond += sum(2 * math.ulp(max(abs(o[0]), abs(p[0]))) for o, p in zip(out[i], g["teams"][i])) / s2[i]
+    # rounding of the Omega sums themselves: each of the <= n terms of Omega_i is O(1) (a probability or a V value times 1/A), so
+    # Omega_i carries ~n eps, the team's mu change (s2_i / c) * that, and its weighted share n eps / c — also when the exact
+    # change is zero (identical teams all tied) and however small the mus are
+    c_lo = math.sqrt(2 * min(s2) + 2 * g["beta"] ** 2)
+    cond += 4 * n * n * 2.3e-16 / c_lo
     allow = 1e-9 * gross + cond + 1e-300
     if IS_TM[g["kind"]] and has_ties(g):
         key = g["oc"][1] if g["oc"][0] == "R" else [-v for v in g["oc"][1]]
